@@ -231,6 +231,14 @@ func (c *Ctx) Sample(v interface{}) {
 	}
 }
 
+// Skip records a generated case that falls outside the oracle's domain
+// (implementation-defined behaviour reached); it is counted, not judged.
+func (c *Ctx) Skip(reason string) {
+	c.mu.Lock()
+	c.res.Notes["skipped:"+reason]++
+	c.mu.Unlock()
+}
+
 // Inconclusive records a case the monitor could not decide.
 func (c *Ctx) Inconclusive(reason string) {
 	c.mu.Lock()
